@@ -261,14 +261,23 @@ def cmd_replay(path, verbose=True):
 
 def build_variants(vs):
     bins = {}
+    vs = sorted(vs, key=lambda v: (v == 'preempt', v))     # preempt last: it may fall back to plain
     for v in vs:
         if v == 'valgrind':
             continue
         try:
             bins[v] = build.build(v)
         except build.BuildError as e:
+            if v == 'preempt' and 'plain' in vs:
+                # e.g. a change that uses C11 atomics: the instrumentation callbacks for them are not provided.
+                # The access-level preemption variant is then unavailable; its runs fall back to the plain build.
+                sys.stdout.write('note: preempt variant does not build on this tree (%s); falling back to plain\n' % e.log.strip().splitlines()[-1][:200])
+                fallback = True
+                continue
             sys.stdout.write('BUILD-FAILED variant=%s\n%s\n' % (v, e.log[-4000:]))
             sys.exit(2)
+    if 'preempt' in vs and 'preempt' not in bins and 'plain' in bins:
+        bins['preempt'] = bins['plain']
     if 'valgrind' in vs:
         # the plain binary under memcheck; junk fill is switched off by the plans that use it so that
         # memcheck's own definedness tracking is the oracle for uninitialised-value use
